@@ -90,6 +90,18 @@ Section Goals.
                   | RfcDraft13 => SRfcResponse (em_dest e) (lenN (em_bytes e))
                   end) es.
 
+  (* with send failures (sf a = true: send_to(.., a) returns an error): the failed replies are not
+     emitted, and are recorded as failed send attempts instead of responses *)
+  Definition delivered (sf : addr -> bool) (es : list emission) : list emission :=
+    filter (fun e => negb (sf (em_dest e))) es.
+
+  Definition spec_response_stats_f (sf : addr -> bool) (v : version) (es : list emission) : list sev :=
+    map (fun e => if sf (em_dest e) then SFailedSend (em_dest e)
+                  else match v with
+                       | Google => SClassicResponse (em_dest e) (lenN (em_bytes e))
+                       | RfcDraft13 => SRfcResponse (em_dest e) (lenN (em_bytes e))
+                       end) es.
+
   (* everything one batch must emit: IETF replies, then classic replies *)
   Definition spec_batch_sent (srv lt oi oc : bytes) (now : clock) (ds : list dgram) : list emission :=
     spec_replies RfcDraft13 lt oi now (accepted srv RfcDraft13 ds)
@@ -99,6 +111,14 @@ Section Goals.
     spec_request_stats srv ds
     ++ spec_response_stats RfcDraft13 (spec_replies RfcDraft13 lt oi now (accepted srv RfcDraft13 ds))
     ++ spec_response_stats Google (spec_replies Google lt oc now (accepted srv Google ds)).
+
+  Definition spec_batch_sent_f (sf : addr -> bool) (srv lt oi oc : bytes) (now : clock) (ds : list dgram) : list emission :=
+    delivered sf (spec_batch_sent srv lt oi oc now ds).
+
+  Definition spec_batch_stats_f (sf : addr -> bool) (srv lt oi oc : bytes) (now : clock) (ds : list dgram) : list sev :=
+    spec_request_stats srv ds
+    ++ spec_response_stats_f sf RfcDraft13 (spec_replies RfcDraft13 lt oi now (accepted srv RfcDraft13 ds))
+    ++ spec_response_stats_f sf Google (spec_replies Google lt oc now (accepted srv Google ds)).
 
   (* the drain over a queue: chunks of batch_size until a read finds the queue empty *)
   Fixpoint spec_drain_sent (fuel n : nat) (srv lt oi oc : bytes) (clk : nat -> clock) (k : nat)
@@ -119,6 +139,26 @@ Section Goals.
         spec_batch_stats srv lt oi oc (clk k) (firstn n queue)
         ++ (if (length queue <? n)%nat then []
             else spec_drain_stats f n srv lt oi oc clk (S k) (skipn n queue))
+    end.
+
+  Fixpoint spec_drain_sent_f (sf : addr -> bool) (fuel n : nat) (srv lt oi oc : bytes) (clk : nat -> clock) (k : nat)
+           (queue : list dgram) : list emission :=
+    match fuel with
+    | O => []
+    | S f =>
+        spec_batch_sent_f sf srv lt oi oc (clk k) (firstn n queue)
+        ++ (if (length queue <? n)%nat then []
+            else spec_drain_sent_f sf f n srv lt oi oc clk (S k) (skipn n queue))
+    end.
+
+  Fixpoint spec_drain_stats_f (sf : addr -> bool) (fuel n : nat) (srv lt oi oc : bytes) (clk : nat -> clock) (k : nat)
+           (queue : list dgram) : list sev :=
+    match fuel with
+    | O => []
+    | S f =>
+        spec_batch_stats_f sf srv lt oi oc (clk k) (firstn n queue)
+        ++ (if (length queue <? n)%nat then []
+            else spec_drain_stats_f sf f n srv lt oi oc clk (S k) (skipn n queue))
     end.
 
   (* ---------- server state invariant ---------- *)
@@ -155,7 +195,7 @@ Section Goals.
   Definition goal_one_batch : Prop :=
     HashLen H -> PkLen -> SigLen ->
     forall cfg lt oi oc s ds now coins,
-      SInv cfg lt oi oc s -> fault_pct cfg = 0 -> N.of_nat (length ds) <= 4294967296 ->
+      SInv cfg lt oi oc s -> fault_pct cfg = 0 -> sends_ok cfg -> N.of_nat (length ds) <= 4294967296 ->
       let srv := ltk_srv_value H ed_pk lt in
       exists s' lg,
         one_batch H ed_sign s ds now coins =
@@ -167,7 +207,7 @@ Section Goals.
   Definition goal_drain : Prop :=
     HashLen H -> PkLen -> SigLen ->
     forall cfg lt oi oc s queue clk coins,
-      SInv cfg lt oi oc s -> fault_pct cfg = 0 ->
+      SInv cfg lt oi oc s -> fault_pct cfg = 0 -> sends_ok cfg ->
       (1 <= batch_size cfg)%nat -> (batch_size cfg <= 255)%nat ->
       let srv := ltk_srv_value H ed_pk lt in
       let n := batch_size cfg in
@@ -175,6 +215,23 @@ Section Goals.
         process_events H ed_sign s queue clk coins =
           Ok (s', mkso (spec_drain_sent (S (length queue)) n srv lt oi oc clk 0 queue)
                        (spec_drain_stats (S (length queue)) n srv lt oi oc clk 0 queue) lg)
+        /\ SInv cfg lt oi oc s'.
+
+  (* G3' (C17 wiring, C09 under send failures): the same drain when some send_to calls fail — the
+     failed replies are not emitted and are counted as failed send attempts, everything else is as
+     specified; statistics and emissions stay in step for every pattern of failures *)
+  Definition goal_drain_f : Prop :=
+    HashLen H -> PkLen -> SigLen ->
+    forall cfg lt oi oc s queue clk coins,
+      SInv cfg lt oi oc s -> fault_pct cfg = 0 ->
+      (1 <= batch_size cfg)%nat -> (batch_size cfg <= 255)%nat ->
+      let srv := ltk_srv_value H ed_pk lt in
+      let n := batch_size cfg in
+      let sf := send_fails cfg in
+      exists s' lg,
+        process_events H ed_sign s queue clk coins =
+          Ok (s', mkso (spec_drain_sent_f sf (S (length queue)) n srv lt oi oc clk 0 queue)
+                       (spec_drain_stats_f sf (S (length queue)) n srv lt oi oc clk 0 queue) lg)
         /\ SInv cfg lt oi oc s'.
 
   (* G4 (C08): no datagram sequence, log level, fault percentage or PRNG outcome makes
